@@ -20,6 +20,8 @@ EXPLANATION = (
     "SCMP reply packet whose message can be an error is dominated by the not-is_error edge of a test on the triggering "
     "packet; ScmpHandler impls return Some only under the EchoRequest discriminant."
 )
+EXPLANATION_ADD = " Additions: (CK-zero) as in C03 for all SCMP encoders; (SIB-demux) the view's and the model's dst_port closures decide identically (same result expression, same branch conditions)."
+EXPLANATION = EXPLANATION + EXPLANATION_ADD
 RESIDUAL = ["checksum arithmetic (C03 residual)", "receiver-side delivery semantics of SCMP errors to application receivers"]
 ASSUMPTIONS = ["an SCMP packet handed to ScmpScionSocket::send_to_via is application-originated, not a reply"]
 TECHNIQUE = "sibling origin-tree templates, post-dominance of the checksum write, provenance of echo fields, guarded construction"
